@@ -441,6 +441,9 @@ def run(ctx) -> None:
     from .c10 import r1_bounds_codec
     with ctx.as_rule(C10_R1="C07.R6"):
         r1_bounds_codec(ctx, nf)
+    ctx.rule("C07.R7", "the model export declares a variable nonlinear exactly when its parameter is a Copyable type parameter, under its own name (shared with C12.R9)", floor=2)
+    from .c12 import r9_symbol_params
+    r9_symbol_params(ctx, ctx.program.module("hugr.model.export"), rule="C07.R7")
     from .. import lints
     lints.arm(ctx)
 
